@@ -95,8 +95,10 @@ class CallMixin:
     if ctr.havoc_all:
       newh = h
       for n in list(h.names()):
-        if n != 'alloc':
+        if n != 'alloc' and not n.startswith(('g:', 'ga:')):
           newh = newh.set(n, fresh('any_' + n.replace(':', '_'), heap_sort(n)))
+      for gname in getattr(ctr, 'ghost_writes', ()):
+        newh = newh.set(gname, fresh('ghost_' + gname.replace(':', '_'), heap_sort(gname)))
       na = fresh('alloc', I)
       newh = newh.set('alloc', na)
       return st.with_heap(newh).assume(na >= h.alloc)
@@ -136,6 +138,7 @@ class CallMixin:
     line = getattr(node, 'lineno', None)
     ctx_pre = C.Ctx(argmap, st.heap, st.heap, env=argmap)
     ctx_pre.caller = st.env
+    ctx_pre.caller_entry_alloc = self.entry_heap.alloc
     self.oblige(f'call:{ctr.id}@{line}/pre', 'call-pre', st, ctr.requires(ctx_pre),
                 f'precondition of {ctr.id}', line)
     if ctr.abstract:
@@ -251,7 +254,29 @@ class CallMixin:
     return self.then(self.ev_list(parts, st), k)
 
   def call_with_splat(self, e, st):
-    self.unsupp('call with *args/**kwargs', e)
+    """f(*args, **kwargs) with a single list splat and a single dict splat: only for callees
+    that have an abstract contract taking (receiver, args list, kwargs dict)."""
+    stars = [a for a in e.args if isinstance(a, ast.Starred)]
+    dstars = [k for k in e.keywords if k.arg is None]
+    plain_kw = [k for k in e.keywords if k.arg is not None]
+    if len(stars) != 1 or len(e.args) != 1 or len(dstars) > 1 or plain_kw:
+      self.unsupp('call with *args/**kwargs outside the supported form', e)
+    cur = self.ctr_stack[-1]
+    src = ast.unparse(e.func)
+    if src not in cur.calls:
+      self.unsupp(f'splat call of `{src}` without an abstract contract', e)
+    target = C.REGISTRY[cur.calls[src]]
+    # a contract whose first parameter is `self` receives the receiver object, otherwise the
+    # callable value itself (e.g. self.__fn_or_cls__)
+    as_method = isinstance(e.func, ast.Attribute) and target.params and target.params[0] == 'self'
+    parts = [e.func.value if as_method else e.func, stars[0].value]
+    if dstars:
+      parts.append(dstars[0].value)
+    def k(st2, vals):
+      first = vals[0].recv if isinstance(vals[0], BoundMethod) else vals[0]
+      pos = [first] + list(vals[1:]) + ([VNone] if not dstars else [])
+      return self.call_named_contract(cur.calls[src], pos, {}, st2, e)
+    return self.then(self.ev_list(parts, st), k)
 
   def do_call(self, f, pos, kw, st, node):
     if isinstance(f, Closure):
@@ -445,6 +470,11 @@ class CallMixin:
     if self.feasible_full(st, z3.Not(z3.And(is_VRef(src), cls_in(h.cls(ref(src)), 'dict')))):
       self.unsupp('defaultdict(factory, non-dict)', node)
     st2, r = self.new_dict(st, 'defaultdict', has=h.hasarr(ref(src)), val=h.valarr(ref(src)))
+    return [Res(st2, VRef(r))]
+
+  def bi_functools_partial(self, pos, kw, st, node):
+    """functools.partial(f, ...): an opaque callable value (only passed on, never called here)."""
+    st2, r = st.alloc('functools.partial')
     return [Res(st2, VRef(r))]
 
   def bi_set(self, pos, kw, st, node):
